@@ -154,3 +154,71 @@ package gostatsd
 //@   ensures  !old(hasS(mm, m.Name, tagsKey)) ==> mm.Sets[m.Name][tagsKey].Timestamp == m.Timestamp && mm.Sets[m.Name][tagsKey].Source == m.Source && tagsCopied(mm.Sets[m.Name][tagsKey].Tags, m.Tags)
 //@   ensures  forall n string, t string :: (n != m.Name || t != tagsKey) ==> hasS(mm, n, t) == old(hasS(mm, n, t)) && (hasS(mm, n, t) ==> mm.Sets[n][t] == old(mm.Sets[n][t]))
 //@   modifies mm.Sets[*], mm.Sets[m.Name][*], mm.Sets[m.Name][tagsKey].Values[*]
+
+// ---- shard routing (C06) -----------------------------------------------------------------------------
+// bucketSpec: the documented routing function (adler32(name)+adler32(tags key)) mod 2^32 mod shards
+//@ pred bucketSpec(n string, s string, max int) := mod(mod(adler32(n) + adler32(s), 4294967296), max)
+
+//@ func Bucket
+//@   pure
+//@   requires 1 <= max && max <= 4294967295
+//@   ensures  0 <= result && result < max
+//@   ensures  result == bucketSpec(metricName, source, max)
+
+// Each calls f exactly once for every (name, tags key) entry of the receiver, with its value.
+//@ func (Counters).Each
+//@   iterator
+//@ func (Gauges).Each
+//@   iterator
+//@ func (Timers).Each
+//@   iterator
+//@ func (Sets).Each
+//@   iterator
+
+// The closures of Split put one series into the shard chosen by Bucket and touch no other
+// series (of that shard, by the postcondition; of other shards, by the frame).
+//@ func (*MetricMap).Split$1
+//@   iter invariant shardsOK(maps, count)
+//@   requires 1 <= count && count <= 4294967295 && len(maps) == count
+//@   requires maps[bucketSpec(metricName, tagsKey, count)] != nil && wfdCounters(maps[bucketSpec(metricName, tagsKey, count)].Counters)
+//@   ensures  wfdCounters(maps[bucketSpec(metricName, tagsKey, count)].Counters) && maps[bucketSpec(metricName, tagsKey, count)].Counters == old(maps[bucketSpec(metricName, tagsKey, count)].Counters)
+//@   ensures  [route] hasC(maps[bucketSpec(metricName, tagsKey, count)], metricName, tagsKey) && maps[bucketSpec(metricName, tagsKey, count)].Counters[metricName][tagsKey] == c
+//@   ensures  [route] forall n string, t string :: (n != metricName || t != tagsKey) ==> hasC(maps[bucketSpec(metricName, tagsKey, count)], n, t) == old(hasC(maps[bucketSpec(metricName, tagsKey, count)], n, t)) && (hasC(maps[bucketSpec(metricName, tagsKey, count)], n, t) ==> maps[bucketSpec(metricName, tagsKey, count)].Counters[n][t] == old(maps[bucketSpec(metricName, tagsKey, count)].Counters[n][t]))
+//@   modifies maps[bucketSpec(metricName, tagsKey, count)].Counters[*], maps[bucketSpec(metricName, tagsKey, count)].Counters[metricName][*]
+
+//@ func (*MetricMap).Split$2
+//@   iter invariant shardsOK(maps, count)
+//@   requires 1 <= count && count <= 4294967295 && len(maps) == count
+//@   requires maps[bucketSpec(metricName, tagsKey, count)] != nil && wfdGauges(maps[bucketSpec(metricName, tagsKey, count)].Gauges)
+//@   ensures  wfdGauges(maps[bucketSpec(metricName, tagsKey, count)].Gauges) && maps[bucketSpec(metricName, tagsKey, count)].Gauges == old(maps[bucketSpec(metricName, tagsKey, count)].Gauges)
+//@   ensures  [route] hasG(maps[bucketSpec(metricName, tagsKey, count)], metricName, tagsKey) && maps[bucketSpec(metricName, tagsKey, count)].Gauges[metricName][tagsKey] == g
+//@   ensures  [route] forall n string, t string :: (n != metricName || t != tagsKey) ==> hasG(maps[bucketSpec(metricName, tagsKey, count)], n, t) == old(hasG(maps[bucketSpec(metricName, tagsKey, count)], n, t)) && (hasG(maps[bucketSpec(metricName, tagsKey, count)], n, t) ==> maps[bucketSpec(metricName, tagsKey, count)].Gauges[n][t] == old(maps[bucketSpec(metricName, tagsKey, count)].Gauges[n][t]))
+//@   modifies maps[bucketSpec(metricName, tagsKey, count)].Gauges[*], maps[bucketSpec(metricName, tagsKey, count)].Gauges[metricName][*]
+
+//@ func (*MetricMap).Split$3
+//@   iter invariant shardsOK(maps, count)
+//@   requires 1 <= count && count <= 4294967295 && len(maps) == count
+//@   requires maps[bucketSpec(metricName, tagsKey, count)] != nil && wfdTimers(maps[bucketSpec(metricName, tagsKey, count)].Timers)
+//@   ensures  wfdTimers(maps[bucketSpec(metricName, tagsKey, count)].Timers) && maps[bucketSpec(metricName, tagsKey, count)].Timers == old(maps[bucketSpec(metricName, tagsKey, count)].Timers)
+//@   ensures  [route] hasT(maps[bucketSpec(metricName, tagsKey, count)], metricName, tagsKey) && maps[bucketSpec(metricName, tagsKey, count)].Timers[metricName][tagsKey] == t
+//@   ensures  [route] forall n string, tk string :: (n != metricName || tk != tagsKey) ==> hasT(maps[bucketSpec(metricName, tagsKey, count)], n, tk) == old(hasT(maps[bucketSpec(metricName, tagsKey, count)], n, tk)) && (hasT(maps[bucketSpec(metricName, tagsKey, count)], n, tk) ==> maps[bucketSpec(metricName, tagsKey, count)].Timers[n][tk] == old(maps[bucketSpec(metricName, tagsKey, count)].Timers[n][tk]))
+//@   modifies maps[bucketSpec(metricName, tagsKey, count)].Timers[*], maps[bucketSpec(metricName, tagsKey, count)].Timers[metricName][*]
+
+//@ func (*MetricMap).Split$4
+//@   iter invariant shardsOK(maps, count)
+//@   requires 1 <= count && count <= 4294967295 && len(maps) == count
+//@   requires maps[bucketSpec(metricName, tagsKey, count)] != nil && wfdSets(maps[bucketSpec(metricName, tagsKey, count)].Sets)
+//@   ensures  wfdSets(maps[bucketSpec(metricName, tagsKey, count)].Sets) && maps[bucketSpec(metricName, tagsKey, count)].Sets == old(maps[bucketSpec(metricName, tagsKey, count)].Sets)
+//@   ensures  [route] hasS(maps[bucketSpec(metricName, tagsKey, count)], metricName, tagsKey) && maps[bucketSpec(metricName, tagsKey, count)].Sets[metricName][tagsKey] == s
+//@   ensures  [route] forall n string, t string :: (n != metricName || t != tagsKey) ==> hasS(maps[bucketSpec(metricName, tagsKey, count)], n, t) == old(hasS(maps[bucketSpec(metricName, tagsKey, count)], n, t)) && (hasS(maps[bucketSpec(metricName, tagsKey, count)], n, t) ==> maps[bucketSpec(metricName, tagsKey, count)].Sets[n][t] == old(maps[bucketSpec(metricName, tagsKey, count)].Sets[n][t]))
+//@   modifies maps[bucketSpec(metricName, tagsKey, count)].Sets[*], maps[bucketSpec(metricName, tagsKey, count)].Sets[metricName][*]
+
+//@ pred shardsOK(maps []*MetricMap, count int) := len(maps) == count && 1 <= count && count <= 4294967295 && (forall i int :: 0 <= i && i < count ==> maps[i] != nil && wfdCounters(maps[i].Counters) && wfdGauges(maps[i].Gauges) && wfdTimers(maps[i].Timers) && wfdSets(maps[i].Sets))
+
+//@ func (*MetricMap).Split
+//@   requires mm != nil && 1 <= count && count <= 4294967295
+//@   requires wfdCounters(mm.Counters) && wfdGauges(mm.Gauges) && wfdTimers(mm.Timers) && wfdSets(mm.Sets)
+//@   ensures  len(result) == count && (forall i int :: 0 <= i && i < count ==> result[i] != nil)
+//@   loop 1 invariant 0 <= i && i <= count && len(maps) == count
+//@   loop 1 invariant forall j int :: 0 <= j && j < i ==> maps[j] != nil && wfdCounters(maps[j].Counters) && wfdGauges(maps[j].Gauges) && wfdTimers(maps[j].Timers) && wfdSets(maps[j].Sets)
+//@   modifies everything
